@@ -62,6 +62,8 @@ type Inv struct {
 	// CPUs > 0: the process is confined to that many CPUs (affinity set before exec), which is
 	// what runtime.NumCPU() reports and what the command sizes its worker pool by (min 4).
 	CPUs int
+	// Prepopulated counts destinations the generator created before the run (statistics)
+	Prepopulated int
 }
 
 type Filter struct {
